@@ -2,6 +2,7 @@
    The token-stream filters (keyword_case, identifier_case, truncate_strings): Filters/TokFiltersFacts.v;
    strip_comments: Props/C08_sc.v (re-exported).  Re-lexing ("no two tokens are fused or split"):
    ASCII letter case never changes token boundaries or types (Inst/CaseInv.v). *)
+From SqlModel.Gen Require LexPins.   (* the scan loop, is_keyword, consume and the class-level state of sqlparse/lexer.py have the pinned shape *)
 From SqlModel Require Import Base PyStr Re Lexer TokFilters TokFiltersCur TokFiltersFacts CaseDefs.
 From SqlModel.Gen Require Import CaseTabs.
 From SqlModel.Inst Require Import Cur CaseInv.
